@@ -42,7 +42,8 @@ MANIFEST_NOTE = ('Trusted: reference channel formula, math.log. Relative '
 RULE = ('case = one error_probability evaluation or one Metropolis step; '
         'distinct by (code, noise, rate, error); non-trivial = error != 0')
 ASSUMPTIONS = ['supported size family = pv/families.py']
-REQUIRED_COUNTERS = ['chain_end_states_compared',
+REQUIRED_COUNTERS = ['chain_end_states_compared', 'user_model_tables',
+                     'errors_given_in_another_representation',
                      'splitting_runs_with_rates_not_descending',
                      'log_forms_on_large_dense_errors',
                      'probabilities_compared', 'normalisation_sums',
@@ -95,9 +96,25 @@ def small_codes():
     return out
 
 
+ERROR_FORMS = ['uint8', 'int64', 'bool', 'list-int', 'list-bool', 'float64']
+
+
+def as_error(e_int, n, form):
+    e = gf2.unpack(e_int, 2 * n)
+    if form == 'list-int':
+        return [int(x) for x in e]
+    if form == 'list-bool':
+        return [bool(x) for x in e]
+    return e.astype(form)
+
+
 def compare_one(out, em, code, tab, e_int, desc, mech):
     n = code.n
-    e = gf2.unpack(e_int, 2 * n)
+    form = ERROR_FORMS[(e_int % 7 + gf2.weight(e_int, n)) % len(ERROR_FORMS)]
+    e = as_error(e_int, n, form)
+    if form != 'uint8':
+        out.count('errors_given_in_another_representation')
+        desc = dict(desc, error_form=form)
     got = float(em.error_probability(e, code, desc['p'], log_output=False))
     ref = ref_prob(tab, e_int, n)
     out.count('probabilities_compared')
@@ -424,14 +441,65 @@ def plan(tier, seed):
                       'dirs': [list(d) for d in dirs[:3]], 'seed': seed,
                       'nrand': 6 if tier == 'quick' else 30, 'dense': True,
                       'cost': 1500 if tier == 'quick' else 8000})
+    tasks.append({'kind': 'usermodel', 'seed': seed, 'cost': 300})
     tasks.append({'kind': 'metropolis', 'seed': seed,
                   'steps': 40 if tier == 'quick' else 400,
                   'cost': 3000 if tier == 'quick' else 30000})
     return tasks
 
 
+def run_user_model(task, out):
+    """A noise model written by a user: a PauliErrorModel subclass that
+    overrides probability_distribution (qubit-dependent rates).  Its
+    error_probability must be the product of ITS table, and its samples must
+    follow that same table (scripted variates, as in C07)."""
+    from panqec.error_models import PauliErrorModel
+    from pv.checks import c07
+    rng = np.random.default_rng([task['seed'], 1819])
+
+    class HotRowsNoise(PauliErrorModel):
+        def probability_distribution(self, code, error_rate):
+            rx, ry, rz = self.direction
+            hot = np.array([1.0 + 0.8 * (q[0] % 4 == 1)
+                            for q in code.qubit_coordinates])
+            px, py, pz = (error_rate * r * hot / 2 for r in (rx, ry, rz))
+            return 1 - px - py - pz, px, py, pz
+    for cls, size in (('Toric2DCode', (3, 4)), ('Planar2DCode', (2, 3)),
+                      ('RotatedPlanar3DCode', (2, 2, 2))):
+        code = fam.build(cls, size)
+        n = code.n
+        for direction in ((0.5, 0.3, 0.2), (1 / 3, 1 / 3, 1 / 3),
+                          (0.1, 0.0, 0.9)):
+            em = HotRowsNoise(*direction)
+            for p in (0.1, 0.6):
+                tab = np.stack([np.asarray(x, dtype=float) for x in
+                                em.probability_distribution(code, p)], axis=1)
+                desc = {'cls': cls, 'size': list(size),
+                        'direction': list(direction), 'p': p,
+                        'noise_deformation': None, 'kwargs': {},
+                        'model': 'user subclass overriding '
+                                 'probability_distribution'}
+                mech = 'error_probability/user-model'
+                out.count('user_model_tables')
+                probes = [0, (1 << (2 * n)) - 1] + [
+                    gf2.pack((rng.random(2 * n) < 0.3).astype('uint8'))
+                    for _ in range(12)]
+                try:
+                    for e_int in probes:
+                        compare_one(out, em, code, tab, e_int, desc, mech)
+                    c07.check_sampling(out, em, code, tab, desc,
+                                       'sampling/user-model', rng, 3)
+                except Exception as e:
+                    where = panqec_frame(e)
+                    if where is None:
+                        raise
+                    out.violation(f'{mech}/raises-{type(e).__name__}',
+                                  f'{type(e).__name__}: {e} at {where}', desc)
+                out.case(desc, True, n=len(probes))
+
+
 def run_task(task, out):
-    {'small': run_small, 'large': run_large,
+    {'small': run_small, 'large': run_large, 'usermodel': run_user_model,
      'metropolis': run_metropolis}[task['kind']](task, out)
 
 
